@@ -122,6 +122,26 @@ def handle (op : String) (j : Json) : Except String Json := do
     match parse cfg s with
     | .ok ms => pure (Json.mkObj [("ok", Json.arr (subs.map fun sub => msgsToJson (hotDeliver ms 0 sub disp)).toArray)])
     | .error e => pure (perrToJson e)
+  | "marbles_ctx" =>
+    -- reactivex.testing.marbles_testing(timespan): exp() = parse(shift = 200, no raise_stopped);
+    -- cold() = from_marbles, hot() = hot(duetime = 200) created at clock 0; start() subscribes at 200, disposes at 1000
+    let which ← getStr j "which"
+    let cfgE ← cfgOfJson j 200 false
+    let expJ := match parse cfgE s with
+      | .ok ms => Json.mkObj [("ok", msgsToJson ms)]
+      | .error e => perrToJson e
+    let gotJ ←
+      if which == "cold" then do
+        let cfg ← cfgOfJson j 0 true
+        pure (match parse cfg s with
+          | .ok ms => Json.mkObj [("ok", msgsToJson (coldDeliver ms 200 1000))]
+          | .error e => perrToJson e)
+      else do
+        let cfg ← cfgOfJson j 200 true
+        pure (match parse cfg s with
+          | .ok ms => Json.mkObj [("ok", msgsToJson (hotDeliver ms 0 200 1000))]
+          | .error e => perrToJson e)
+    pure (Json.mkObj [("exp", expJ), ("got", gotJ)])
   | _ => throw s!"unknown op {op}"
 
 end DrvPureMarbles
